@@ -282,6 +282,16 @@ def _exec_prog(ctx, spec):
                 a.readcode(lang, **pargs)
                 a.append(ref[1:])
                 inside_code = a.readcode(lang, **pargs)
+        elif churn == 'r-ask-r+-append-r-ask' and shape[0] >= 2:
+            # a READ-ONLY handle is asked for code, switched to r+, the array grows through it, it is switched back and asked again
+            out.cls('after-history-on-live-handle', 'churn:r-ask-r+-append-r-ask')
+            darr.asarray(apath, ref[:1])
+            a = darr.Array(apath)          # accessmode 'r'
+            a.readcode(lang, **pargs)
+            a.readcodelanguages
+            a.accessmode = 'r+'
+            a.append(ref[1:])
+            a.accessmode = 'r'
         elif churn == 'ask-append-ask' and shape[0] >= 2:
             out.cls('after-history-on-live-handle', 'churn:ask-append-ask')
             a = darr.asarray(apath, ref[:1], accessmode='r+')
@@ -308,7 +318,10 @@ def _exec_prog(ctx, spec):
                 ar = None
             finally:
                 os.chdir(old)
-        if spec.get('seed', 1) % 4 == 3 or spec.get('positional'):
+        if spec.get('both') and pm == 'abs' and not spec.get('via'):
+            out.cls('call:abspath-and-basepath')      # absolute paths requested AND a base path given: the paths are absolute
+            code = a.readcode(lang, abspath=True, basepath=bparg)
+        elif spec.get('seed', 1) % 4 == 3 or spec.get('positional'):
             out.cls('call:positional-arguments')      # the same call with abspath and basepath given by position
             code = a.readcode(lang, pm == 'abs', bparg if pm == 'base' else None)
         else:
@@ -428,7 +441,7 @@ def prog_specs(seeds=(1,)):
     for t, shape, lang in itertools.product(NUMTYPES, [(4,), (3, 2)], LANGS):
         yield {'f': 'prog', 't': t, 'bo': '>', 'shape': list(shape), 'lang': lang, 'pm': 'rel', 'seed': 1, 'churn': True}
     for t, shape, lang, pm, churn in itertools.product(['int32', 'float16', 'complex128'], [(4,), (3, 2)], LANGS, PATHMODES,
-                                                       ['ask-trunc-ask', 'ask-append-ask', 'change-and-ask-inside-context']):
+                                                       ['ask-trunc-ask', 'ask-append-ask', 'change-and-ask-inside-context', 'r-ask-r+-append-r-ask']):
         yield {'f': 'prog', 't': t, 'bo': '<', 'shape': list(shape), 'lang': lang, 'pm': pm, 'seed': 4, 'churn': churn}
     for t, shape, lang in itertools.product(['int16', 'float64', 'complex64'], [(3,), (3, 2)], LANGS):
         yield {'f': 'prog', 't': t, 'bo': '<', 'shape': list(shape), 'lang': lang, 'pm': 'base', 'seed': 2, 'via': 'base-symlink-dotdot'}
@@ -441,6 +454,8 @@ def prog_specs(seeds=(1,)):
     yield from large_specs(thorough=len(seeds) > 1)
     for t, lang, pm in itertools.product(['int16', 'float64'], LANGS, ['rel', 'abs']):
         yield {'f': 'prog', 't': t, 'bo': '<', 'shape': [3, 2], 'lang': lang, 'pm': pm, 'seed': 5, 'legacy': True}
+    for lang in LANGS:
+        yield {'f': 'prog', 't': 'int32', 'bo': '>', 'shape': [2, 3], 'lang': lang, 'pm': 'abs', 'seed': 5, 'both': True}
     for t, lang, bp in itertools.product(['int16', 'float64', 'complex64'], LANGS, ['empty', 'dot', 'dotslash', 'emptypath', 'dotpath']):
         yield {'f': 'prog', 't': t, 'bo': '<', 'shape': [3, 2], 'lang': lang, 'pm': 'base', 'seed': 5, 'bp': bp}
     for t, lang, pm, names in itertools.product(['uint8', 'float32', 'complex128'], LANGS, PATHMODES, ['unicode', 'space-dash', 'cjk']):
@@ -471,10 +486,10 @@ def st_prog(draw):
     rank = draw(st.integers(1, 4))
     return {'f': 'prog', 't': draw(st.sampled_from(NUMTYPES)), 'bo': draw(st.sampled_from('<>')),
             'shape': [draw(st.integers(1, 6)) for _ in range(rank)], 'lang': draw(st.sampled_from(LANGS)),
-            'pm': draw(st.sampled_from(PATHMODES)), 'seed': draw(st.integers(0, 2 ** 20)), 'churn': draw(st.sampled_from([None, None, True, 'ask-trunc-ask', 'ask-append-ask', 'change-and-ask-inside-context'])),
+            'pm': draw(st.sampled_from(PATHMODES)), 'seed': draw(st.integers(0, 2 ** 20)), 'churn': draw(st.sampled_from([None, None, True, 'ask-trunc-ask', 'ask-append-ask', 'change-and-ask-inside-context', 'r-ask-r+-append-r-ask'])),
             'via': draw(st.sampled_from([None, None, 'symlink-dotdot', 'relative', 'base-symlink-dotdot'])),
             'names': draw(st.sampled_from([None, None, None, 'unicode', 'space-dash', 'cjk'])), 'bp': draw(st.sampled_from([None, None, None, None, 'empty', 'dot', 'dotslash', 'emptypath', 'dotpath'])),
-            'legacy': draw(st.sampled_from([False, False, False, True]))}
+            'legacy': draw(st.sampled_from([False, False, False, True])), 'both': draw(st.sampled_from([False, False, True]))}
 
 
 def task_enum(ctx, col, shard, seeds):
